@@ -3,6 +3,7 @@
 import numpy as np
 from hypothesis import strategies as st
 
+from pydrex import core as _core
 from pydrex import utils as _utils
 
 from vlib import gen, hist
@@ -91,9 +92,12 @@ def check_gbs_function(case):
 def gbs_history_case():
     return st.fixed_dictionaries(
         {
-            "min": hist.mineral_spec(2, 30, regimes=(4, 6)),
+            # every accepted regime: the sliding step does not depend on the deformation mechanism
+            "min": hist.mineral_spec(2, 30, regimes=(4, 6, 4, 6, 0, 1, 7)),
+            # optional per-update regimes handed over through the get_regime callback
+            "cb": st.one_of(st.none(), st.none(), st.lists(st.sampled_from([4, 6, 4, 0, 1, 7]), min_size=1, max_size=5)),
             "par": hist.param_spec(
-                chi=st.one_of(st.just(0.0), st.floats(0.2, 0.9), st.floats(0.2, 0.9)),
+                chi=st.one_of(st.floats(0.2, 0.9), st.floats(0.2, 0.9), st.just(0.0)),  # first branch = Hypothesis' favourite
                 M=st.floats(50.0, 200.0),
             ),
             "F0": hist.f0_spec(),
@@ -115,12 +119,20 @@ def check_gbs_history(case):
     taus = hist.tau_points(flow.T, case["cuts"])
     thr = chi / n
     any_mixed = False
+    regimes_seen = set()
     unobserved = False
     worst = 0.0
     for k, (ta, tb) in enumerate(zip(taus[:-1], taus[1:])):
         A_start = mineral.orientations[-1].copy()
+        get_regime = None
+        if case.get("cb"):
+            rk = case["cb"][k % len(case["cb"])]
+            regimes_seen.add(rk)
+            get_regime = lambda t, x, rk=rk: _core.DeformationRegime(rk)  # noqa: E731
+        else:
+            regimes_seen.add(ms["regime"])
         with hist.GbsRecorder(keep="all") as rec:
-            F = hist.update(mineral, params, F, flow, ta, tb)
+            F = hist.update(mineral, params, F, flow, ta, tb, get_regime=get_regime)
         if not rec.calls:
             # The sliding step is not reached through pydrex.utils.apply_gbs (e.g. refactored call
             # path): the pre-floor state is not observable; only the black-box consequences remain.
@@ -165,7 +177,10 @@ def check_gbs_history(case):
             any_mixed = True
     return {
         "nontrivial": any_mixed,
-        "labels": ["chi0" if chi == 0 else "chi>0", "mixed" if any_mixed else "nomix", gen.FABRICS[ms["pf"]][2]] + (["sliding_step_unobserved"] if unobserved else []),
+        "labels": ["chi0" if chi == 0 else "chi>0", "mixed" if any_mixed else "nomix", gen.FABRICS[ms["pf"]][2]]
+        + (["sliding_step_unobserved"] if unobserved else [])
+        + (["non_dislocation_regime"] if regimes_seen & {0, 1, 7} else [])
+        + (["regime_callback"] if case.get("cb") else []),
         "residual": worst,
     }
 
